@@ -34,11 +34,27 @@ def discover_classes() -> dict[str, type]:
         for _n, c in vars(m).items():
             if inspect.isclass(c) and issubclass(c, sp.Basic) and c.__module__.startswith("ampform"):
                 out[f"{c.__module__}.{c.__qualname__}"] = c
+    # classes written with the library's decorator in field layouts the library itself does not use (yet)
+    from vmon.workloads import toy_classes  # noqa: PLC0415
+    for _n, c in vars(toy_classes).items():
+        if inspect.isclass(c) and issubclass(c, sp.Basic) and c.__module__ == toy_classes.__name__:
+            out[f"{c.__module__}.{c.__qualname__}"] = c
     return out
 
 
 def is_ampform_instance(node) -> bool:
-    return type(node).__module__.startswith("ampform")
+    return type(node).__module__.startswith(("ampform", "vmon.workloads.toy_classes"))
+
+
+def build(cls, sympy_values: list, attrs: dict):
+    """Construct a dataclass-like expression class from the values of its SymPy fields (declaration order) and its non-SymPy
+    attributes: positionally where the non-SymPy fields trail (the library's layout), by keyword otherwise."""
+    sf = sympy_fields(cls)
+    names = [f.name for f in dataclasses.fields(cls)]
+    trailing = names[: len(sf)] == [f.name for f in sf]
+    if trailing:
+        return cls(*sympy_values, **attrs)
+    return cls(**{f.name: v for f, v in zip(sf, sympy_values)}, **attrs)
 
 
 def sympy_fields(cls):
@@ -137,8 +153,11 @@ def generate_instances(classes: dict[str, type], pool: Pool) -> list[tuple[str, 
                         kwargs[f.name] = pool.phsp[(si + variant) % len(pool.phsp)]
                     elif f.name == "name":
                         kwargs[f.name] = [None, "custom", R"\tilde{n}"][(si + variant) % 3]
+                for f in extras:   # toy layouts have no defaults
+                    if f.name not in kwargs and f.default is dataclasses.MISSING:
+                        kwargs[f.name] = None if f.name == "name" else pool.phsp[0]
                 try:
-                    inst = cls(*args, **kwargs)
+                    inst = build(cls, args, kwargs)
                 except Exception as exc:  # noqa: BLE001
                     out.append((key, f"{shape}/{variant}", exc))
                     continue
@@ -155,8 +174,10 @@ def generate_instances(classes: dict[str, type], pool: Pool) -> list[tuple[str, 
                     import itertools  # noqa: PLC0415
                     for ci, combo in enumerate(itertools.product(*choices)):
                         kw = {k: v for k, v in combo if v is not dataclasses.MISSING}
+                        if any(f.name not in kw and f.default is dataclasses.MISSING for f in extras):
+                            continue
                         try:
-                            out.append((key, f"{shape}-attrs/{ci}", cls(*args, **kw)))
+                            out.append((key, f"{shape}-attrs/{ci}", build(cls, args, kw)))
                         except Exception as exc:  # noqa: BLE001
                             out.append((key, f"{shape}-attrs/{ci}", exc))
     return out
@@ -179,13 +200,13 @@ def random_instance(cls, pool: Pool, rng):
             args.append(pool.scalar(sh, k))
     kwargs = {}
     for f in non_sympy_fields(cls):
-        if rng.uniform() < 0.25:
+        if rng.uniform() < 0.25 and f.default is not dataclasses.MISSING:
             continue  # leave the default
         if f.name == "phsp_factor":
             kwargs[f.name] = pool.phsp[int(rng.integers(len(pool.phsp)))]
         elif f.name == "name":
             kwargs[f.name] = [None, "custom", R"\tilde{n}", R"\Gamma_1"][int(rng.integers(4))]
-    return cls(*args, **kwargs)
+    return build(cls, args, kwargs)
 
 
 def helper_instances(pool: Pool) -> list[tuple[str, str, sp.Basic]]:
@@ -344,5 +365,5 @@ def rebuild(obj):
     args = [rebuild(a) for a in obj.args]
     cls = type(obj)
     if dataclasses.is_dataclass(cls):
-        return cls(*args, **{f.name: getattr(obj, f.name) for f in non_sympy_fields(cls)})
+        return build(cls, args, {f.name: getattr(obj, f.name) for f in non_sympy_fields(cls)})
     return obj.func(*args)
